@@ -271,6 +271,38 @@ def bandRows (rows : List (Option τ × Option α)) (p : α) :
     List (Option τ × Option α × Option α) :=
   (uniq (rows.map (·.1))).map (bandRow rows p)
 
+/-! ### the time mask as a parameter
+
+`_compute_bulk_probs` selects the samples of a time point with `data[time_key] == time`, i.e.
+`eqM`.  `samplesAtBy sel` is the same code with another row selector `sel rowTime time`
+(a tolerance test like `np.isclose(data[time_key], time)`, a comparison after rounding, …); the
+proofs say when such a selector draws the same figure (`C20_band_mask_exact`) and that a selector
+pooling two different time points does not (`C20_band_pooled_times_counterexample`). -/
+
+def samplesAtBy (sel : Option τ → Option τ → Bool) (rows : List (Option τ × Option α))
+    (t : Option τ) : List α :=
+  (rows.filter (fun r => sel r.1 t)).filterMap (·.2)
+
+def bandRowBy (sel : Option τ → Option τ → Bool) (rows : List (Option τ × Option α)) (p : α)
+    (t : Option τ) : Option τ × Option α × Option α :=
+  let xs := samplesAtBy sel rows t
+  (t, lowerLimit xs p, upperLimit xs p)
+
+def bandRowsBy (sel : Option τ → Option τ → Bool) (rows : List (Option τ × Option α)) (p : α) :
+    List (Option τ × Option α × Option α) :=
+  (uniq (rows.map (·.1))).map (bandRowBy sel rows p)
+
+/-- a tolerance mask on a time axis counted in ticks (the double's position on the number line):
+    "equal" when at most `tol` ticks apart; `withinM 0` on present entries is `==` -/
+def withinM (tol : Nat) (a b : Option Nat) : Bool :=
+  match a, b with
+  | some x, some y => decide (x ≤ y + tol) && decide (y ≤ x + tol)
+  | _, _ => false
+
+/-- the rows carrying exactly the time `t` -/
+def rowsAt (rows : List (Option τ × Option α)) (t : τ) : List (Option τ × Option α) :=
+  rows.filter (fun r => decide (r.1 = some t))
+
 /-- `_add_prediction_bulk_prob_trace`: `x = times ++ reversed(times)`,
     `y = upper ++ reversed(lower)` -/
 def polygon {β γ : Type} (b : List (β × γ × γ)) : List β × List γ :=
